@@ -4,7 +4,7 @@
 \* with BarrierFix = TRUE add ResOK to INVARIANTS.
 \* Directed search for circuits in which the transitive half of the blocked-qudit bookkeeping decides:
 \*   NQ = 6, MaxOps = 5, BlockSizes = {3}, GateArities = {2, 3}, BarrierMode = "none", Slack = 2, EmitMechs = {"trans"},
-\*   CONSTRAINT DirectedTrans
+\*   CONSTRAINT Directed
 SPECIFICATION Spec
 CONSTANTS
   NQ = 3
@@ -18,6 +18,7 @@ CONSTANTS
   EmitMod = 0
   MinFinal = 1
   EmitMechs = {}
-  Slack = 0
+  Slack = 99
+  Target = "trans"
 INVARIANTS AssertsHold Shape
 CHECK_DEADLOCK FALSE
